@@ -185,6 +185,27 @@ def replay(chk, behs, rng, fire_every):
                             chk.violation("C17.LaunchVelocity", {**k, "mode": mode}, {"beh": b, "got": o2[1], "want": float(want)})
         epilogue(chk, b, ammo, T_, VU, vu, key0, sig, every=1 if bi % 3 == 0 else 2, start=bi,
                  fire_ctx=(m, calc, weapon) if bi % fire_every == 0 else None)
+        if bare and len(b.get("final", [])) >= 2:
+            # COINCIDENCE queries: a bare number that happens to equal the baseline temperature's (or the stated velocity's) number in
+            # ANOTHER unit - the library's own base units first (Fahrenheit, m/s) - is still that many of the PREFERRED unit: the
+            # answer lies on the spec's final line (linear: through its first and last points), nowhere else
+            fin = sorted(b["final"])
+            (Ta, ra), (Tb, rb) = fin[0], fin[-1]
+            va, vb = Fraction(ra[0] * ra[1], ra[2]), Fraction(rb[0] * rb[1], rb[2])
+            nums = {float(UA.convert("Celsius", u_, T0)) for u_ in temp_units if u_ != tu} | {float(v0), float(UA.convert("MPS", "FPS", v0))}
+            for x in sorted(nums):
+                Tc = UA.convert(tu, "Celsius", Fraction(x))
+                if Tc < -273:
+                    continue
+                want = (va + (vb - va) * (Tc - Ta) / (Tb - Ta)) * UA.convert("MPS", vu, 1)
+                o = impl.outcome(lambda: ammo.get_velocity_for_temp(x) >> VU)
+                chk.count(1)
+                chk.stratum("bare_query_equal_to_the_baseline_number_in_another_unit")
+                if o[0] != "ok":
+                    chk.violation("C17.QueryRaised", {**key0, "Tq": float(Tc), "flag": True, "history": "/".join(sig) + "/(on)/coincidence"}, {"beh": b, "exc": o[1]})
+                elif not close(o[1], want):
+                    chk.violation("C17.WrongVelocity", {**key0, "Tq": float(Tc), "flag": True, "history": "/".join(sig) + "/(on)/coincidence"},
+                                  {"beh": b, "bare_number": x, "preferred_unit": tu, "got": o[1], "want": float(want)})
 
 
 def epilogue(chk, b, ammo, T_, VU, vu, key0, sig, every=1, start=0, fire_ctx=None):
@@ -283,7 +304,7 @@ def run(chk: core.Check, replay_path=None, **_):
     for b in behs[:: max(1, len(behs) // 4)][:4]:
         chk.sample(b)
     chk.require_strata(["epilogue_switched_on", "fire_held_shot_after_every_operation", "display_and_preferences_perturbed", "bare_numbers", "calibration_rejected", "calibrated_faster", "calibrated_slower", "calibrated_warmer", "calibrated_colder",
-                        "query_enabled", "query_disabled", "fire_air", "fire_powder_t", "fire_implied_powder_temperature", "bare_atmosphere_fired_under_other_preferences"])
+                        "query_enabled", "query_disabled", "fire_air", "fire_powder_t", "fire_implied_powder_temperature", "bare_atmosphere_fired_under_other_preferences", "bare_query_equal_to_the_baseline_number_in_another_unit"])
     chk.rule.append("every behaviour of %d operations of the Powder state machine over v in %s m/s, T in %s C (TLC Gen_Powder), "
                     "temperatures/velocities passed in rotating units; non-trivial = an enabled query whose answer differs "
                     "from the stated velocity" % (maxops, vels, temps))
